@@ -194,6 +194,61 @@ def r10_4(ck: Check) -> None:
         ck.violated("R10.4", construct, "request loop changed: %s" % [e.describe()[:200] for e in send], c.fi.loc)
 
 
+def r10_8(ck: Check) -> None:
+    """the send side of a connection: every message is framed (magic, 4-byte big-endian length of header+message, header, message) and
+    queued; the socket is drained front to back by exactly what `send` reports as sent; messages leave in the order they were queued"""
+    s = ck.summ(CRP + "send_message", 0)
+    sp = Spec(s, ("self", "message", "prev"))
+    hdr = [e for e in s.events if e.kind == "call" and "new:skepticoin.networking.messages.MessageHeader" in e.targets]
+    aps = [e for e in s.events if e.kind == "call" and e.parts and e.parts[0] == ("a", sp.term("self.send_backlog"), "append")]
+    construct = "send_message: queues MAGIC ++ u32be(len(header ++ message)) ++ header ++ message, unconditionally, once"
+    ok = False
+    if len(hdr) == 1 and len(aps) == 1 and not residual(aps[0], ()) and not aps[0].loops:
+        h = hdr[0].term
+        data = ("cat", (("call", ("a", h, "serialize"), (), ()), sp.term("message.serialize()")))
+        ln = ("call", ("g", "builtin:len"), (data,), ())
+        forms = [("cat", (sp.term("MAGIC"), ("call", ("g", "ext:struct.pack"), (C(fmt), ln), ()), data[1][0], data[1][1])) for fmt in (b">I", b"!I", ">I", "!I")]
+        forms += [("cat", (sp.term("MAGIC"), ("call", ("a", ln, "to_bytes"), (C(4), C("big"), C(False)), ()), data[1][0], data[1][1]))]
+        ok = aps[0].term[2][0] in forms
+    if ok:
+        ck.ok("R10.8", construct, "", aps[0].loc)
+    else:
+        ck.violated("R10.8", construct, "queued: %s" % [show(e.term[2][0])[:260] for e in aps], s.fi.loc)
+    buf, backlog = sp.term("self.send_buffer"), sp.term("self.send_backlog")
+    st = [e for e in s.events if e.kind == "store" and e.term == buf]
+    start = [e for e in s.events if e.kind == "call" and CRP + "start_sending" in e.targets]
+    idle = s.norm.mk_cmp_s("==", ("call", ("g", "builtin:len"), (buf,), ()), C(0), None)
+    pop0 = ("call", ("a", backlog, "pop"), (C(0),), ())
+    construct = "send_message: when nothing is in flight, the oldest queued frame becomes the send buffer and write-readiness is requested"
+    if len(st) == 1 and st[0].value == pop0 and len(start) == 1 and aps and aps[0].seq < st[0].seq < start[0].seq \
+            and {x for c in st[0].pc for x in conjuncts(c.term)} == {idle} == {x for c in start[0].pc for x in conjuncts(c.term)}:
+        ck.ok("R10.8", construct, "", st[0].loc)
+    else:
+        ck.violated("R10.8", construct, "%s" % [e.describe()[:140] for e in st + start], s.fi.loc)
+    c = ck.summ(CRP + "handle_can_send", 0)
+    spc = Spec(c, ("self", "sock"))
+    buf, backlog = spc.term("self.send_buffer"), spc.term("self.send_backlog")
+    sends = [e for e in c.events if e.kind == "call" and not e.chain and e.parts and e.parts[0] == ("a", spc.term("sock"), "send")]
+    stores = [e for e in c.events if e.kind == "store" and not e.chain and e.term == buf]
+    construct = "handle_can_send: sent = sock.send(send_buffer); send_buffer = send_buffer[sent:] (nothing dropped, nothing repeated)"
+    if len(sends) == 1 and sends[0].term[2] == (buf,) and not residual(sends[0], ()) and stores and stores[0].value == ("sl", buf, sends[0].term, None, None) \
+            and not residual(stores[0], ()) and sends[0].seq < stores[0].seq:
+        ck.ok("R10.8", construct, "", sends[0].loc)
+    else:
+        ck.violated("R10.8", construct, "%s" % [e.describe()[:140] for e in sends + stores], c.fi.loc)
+    empty = c.norm.mk_cmp_s("==", ("call", ("g", "builtin:len"), (buf,), ()), C(0), None)     # (read after the store: the remaining bytes)
+    noq = c.norm.mk_cmp_s("==", ("call", ("g", "builtin:len"), (backlog,), ()), C(0), None)
+    nxt = [e for e in stores[1:] if e.value == ("call", ("a", backlog, "pop"), (C(0),), ())]
+    stop = [e for e in c.events if e.kind == "call" and not e.chain and CRP + "stop_sending" in e.targets]
+    cs = lambda e: {x for cj in e.pc for x in conjuncts(cj.term)}   # noqa
+    from ..engine.terms import mk_not
+    construct = "handle_can_send: when the buffer is drained, the next queued frame (oldest first) follows; write-readiness is dropped only when the queue is empty"
+    if len(nxt) == 1 and len(stop) == 1 and cs(nxt[0]) == {empty, mk_not(noq)} and cs(stop[0]) == {empty, noq}:
+        ck.ok("R10.8", construct, "", nxt[0].loc)
+    else:
+        ck.violated("R10.8", construct, "next-frame stores %s; stop_sending %s" % ([e.describe()[:160] for e in stores[1:]], [e.describe()[:160] for e in stop]), c.fi.loc)
+
+
 def r10_5(ck: Check) -> None:
     s = ck.summ("skepticoin.networking.manager.get_recent_block_heights", 0)
     require_return(ck, "R10.5", s, Spec(s, ("h",)),
@@ -295,6 +350,7 @@ def check(ck: Check) -> None:
     ck.run("R10.2", "a transaction is relayed only when new and admitted", lambda: r13_4(ck))
     ck.run("R10.3", "inventory service", lambda: r10_3(ck))
     ck.run("R10.4", "inventory consumption", lambda: r10_4(ck))
+    ck.run("R10.8", "send side: framing, queue order, partial sends", lambda: r10_8(ck))
     ck.run("R10.5", "locator", lambda: r10_5(ck))
     ck.run("R10.6", "active fetching predicate and step", lambda: r10_6(ck))
     ck.run("R10.7", "inventory bookkeeping", lambda: r10_7(ck))
